@@ -71,7 +71,7 @@ package ice
 //@   ensures unhandled-messages-change-nothing: msg == nil || local == nil || !(old(msg.Type.Method) == 1 && (old(msg.Type.Class) == 0 || old(msg.Type.Class) == 1 || old(msg.Type.Class) == 2)) ==> unchangedExcept()
 
 //@ func (*Agent).findRemoteCandidate
-//@   props C02 C06
+//@   props C02 C06 C07
 //@   modifies nothing
 //@   loop 1 invariant index-in-range: rangeindex + 1 <= len(set)
 //@   site call addrPortEqual#1 assert compares-the-candidates-address-with-the-source-in-canonical-form: arg1 == addr
